@@ -17,13 +17,15 @@ SIGNO = {"sigint": signal.SIGINT, "sigterm": signal.SIGTERM, "kill": signal.SIGK
 def model(rep):
     exp = {}
     for keep in (False, True):
-        behs, r = inproc.gen("Crash", dict(Keep=keep), ["Dichotomy", "StatusHonest", "KillSafe", "Export"], "crash%d" % keep, workers=1, timeout=300)
-        if behs is None:
-            raise vlib.Infra("Crash.tla violates its own invariants:\n" + r.text[-1500:])
-        rep.add("states", r.distinct)
-        rep.add("transitions", r.generated)
-        for b in behs:
-            exp.setdefault((keep, b["at"], b["fault"]), []).append(b)
+        for damaged in (False, True):
+            behs, r = inproc.gen("Crash", dict(Keep=keep, Damaged=damaged), ["Dichotomy", "StatusHonest", "KillSafe", "Export"],
+                                 "crash%d%d" % (keep, damaged), workers=1, timeout=300)
+            if behs is None:
+                raise vlib.Infra("Crash.tla violates its own invariants:\n" + r.text[-1500:])
+            rep.add("states", r.distinct)
+            rep.add("transitions", r.generated)
+            for b in behs:
+                exp.setdefault((keep, damaged, b["at"], b["fault"]), []).append(b)
     return exp
 
 
@@ -36,7 +38,8 @@ def run_one(exe, shim, scen, keep, env_extra, idx):
         oname = "f" if scen["dec"] else "f.bz2"
         with open(os.path.join(d, iname), "wb") as f:
             f.write(scen["input"])
-        env = {"LD_PRELOAD": shim}
+        mark = os.path.join(d, ".fired")
+        env = {"LD_PRELOAD": shim, "VERIF_IO_MARK": mark}
         env.update(env_extra)
         args = [exe, "-n", "2"] + (["-d"] if scen["dec"] else ["-1"]) + (["-k"] if keep else []) + [iname]
         r = vlib.run(args, env=env, cwd=d, timeout=30)
@@ -66,8 +69,9 @@ def run_one(exe, shim, scen, keep, env_extra, idx):
             except Exception:
                 ok = False
             out = "complete" if ok else "partial"
-        extra = [n for n in os.listdir(d) if n not in (iname, oname)]
-        return res, inp, out, r.err, extra
+        fired = os.path.exists(mark)
+        extra = [n for n in os.listdir(d) if n not in (iname, oname, ".fired")]
+        return res, inp, out, r.err, extra, fired
     finally:
         shutil.rmtree(d, ignore_errors=True)
 
@@ -79,7 +83,12 @@ def run(rep, tier, replay):
     exp = model(rep)
     plain = rng.randbytes(230000)
     comp = bz2.compress(plain, 1)
-    scens = [dict(name="compress", dec=False, input=plain, plain=plain), dict(name="decompress", dec=True, input=comp, plain=plain)]
+    bad = bytearray(comp)
+    bad[len(bad) // 2] ^= 0x10
+    scens = [dict(name="compress", dec=False, input=plain, plain=plain, damaged=False),
+             dict(name="decompress", dec=True, input=comp, plain=plain, damaged=False),
+             # a data error found by a worker: bailout() -> cleanup() removes the partial output
+             dict(name="decompress-damaged", dec=True, input=bytes(bad), plain=plain, damaged=True)]
     jobs = []
     for scen in scens:
         for keep in (False, True):
@@ -88,8 +97,9 @@ def run(rep, tier, replay):
             if os.path.exists(log):
                 os.unlink(log)
             res = run_one(exe, shim, scen, keep, {"VERIF_IO_LOG": log}, rng.randrange(10 ** 9))
-            if res[0] != "exit0" or res[2] != "complete" or res[1] != ("present" if keep else "gone"):
-                raise vlib.Infra("dry run of %s failed: %s" % (scen["name"], res[:3]))
+            want = ("exit1", "present", "absent") if scen["damaged"] else ("exit0", "present" if keep else "gone", "complete")
+            if tuple(res[:3]) != want:
+                raise vlib.Infra("dry run of %s gave %s" % (scen["name"], res[:3]))
             calls = [l.split()[0] for l in open(log)]
             cnt = {}
             seq = []
@@ -105,7 +115,7 @@ def run(rep, tier, replay):
                 if op == "close":
                     return "close_out" if k == 1 else "close_in"
                 if op == "unlink":
-                    return "unlink_in"
+                    return "unlink_out" if scen["damaged"] else "unlink_in"
                 return op
             for op, k in seq:
                 st = step_of(op, k)
@@ -120,13 +130,15 @@ def run(rep, tier, replay):
                     jobs.append((scen, keep, st, f, {"VERIF_IO_FAIL": "%s:%d:%d" % (op, k, errno_)}, "%s#%d fails with errno %d" % (op, k, errno_)))
                 for f in ("sigint", "sigterm", "kill"):
                     jobs.append((scen, keep, st, f, {"VERIF_IO_SIG": "%s:%d:%d" % (op, k, SIGNO[f])}, "%s before %s#%d" % (f, op, k)))
-                # the points between system calls: right after the input is open (before cli), before sti, before exit
-                after = {"open_in": "cli", "close_in": "exit"}.get(st)
-                if st == "unlink_in" or (keep and st == "close_out"):
-                    after = "sti"
-                if after:
-                    for f in ("sigint", "sigterm", "kill"):
-                        jobs.append((scen, keep, after, f, {"VERIF_IO_SIG": "%s:%d:%d:after" % (op, k, SIGNO[f])}, "%s after %s#%d" % (f, op, k)))
+                # the points right AFTER each call (before whatever the program does next, e.g. cli() after the
+                # input is open, the start of work() after the output is created, sti() after the unlink)
+                nxt = {"open_in": ["cli"], "open_out": ["work"], "work": ["work", "unlink_out" if scen["damaged"] else "fchown"], "fchown": ["fchmod"],
+                       "fchmod": ["futimens"], "futimens": ["close_out"], "close_out": ["unlink_in"], "unlink_in": ["sti"], "close_in": ["exit"],
+                       "unlink_out": []}.get(st)
+                if nxt is None:
+                    raise vlib.Infra("unexpected call %s#%d in scenario %s" % (op, k, scen["name"]))
+                for f in (("sigint", "sigterm", "kill") if nxt else ()):
+                    jobs.append((scen, keep, nxt, f, {"VERIF_IO_SIG": "%s:%d:%d:after" % (op, k, SIGNO[f])}, "%s after %s#%d" % (f, op, k)))
     rep.cov["injection_points"] = len(jobs)
 
     def go(ij):
@@ -134,10 +146,15 @@ def run(rep, tier, replay):
         return (scen, keep, st, f, what, run_one(exe, shim, scen, keep, env, i))
     results = campaign.parallel(go, list(enumerate(jobs)), par=12)
     seen = set()
-    for scen, keep, st, f, what, (res, inp, out, err, extra) in results:
+    for scen, keep, st, f, what, (res, inp, out, err, extra, fired) in results:
         rep.add("evaluations")
         seen.add((scen["name"], keep, what))
-        alts = exp.get((keep, st, f))
+        alts = [b for x in (st if isinstance(st, list) else [st]) for b in exp.get((keep, scen["damaged"], x, f), [])]
+        if not fired:
+            if not scen["damaged"]:
+                raise vlib.Infra("%s: injection point %s not reached although the dry run made that call" % (scen["name"], what))
+            rep.add("positions_not_reached")       # how far reader and writer get before the data error is found varies
+            continue
         if not alts:
             raise vlib.Infra("no model behaviour for %s" % ((keep, st, f),))
 
@@ -162,6 +179,8 @@ def run(rep, tier, replay):
                 return "no diagnostic"
             return None
         whys = [judge(e) for e in alts]
+        if scen["damaged"] and f == "kill" and (res, inp, out) == ("exit1", "present", "absent"):
+            whys.append(None)                      # the process was already exiting when SIGKILL was sent
         why = None if None in whys else whys[0]
         e = alts[0]
         if why:
@@ -173,7 +192,7 @@ def run(rep, tier, replay):
     rep.cov["distinct_nontrivial"] = len(seen)
     rep.cov["rule"] = "one case per (scenario, -k, call position, fault); all distinct; non-trivial = the injection point was reached (every position comes from a dry run of the same scenario)"
     rep.cov["exhaustive"] = True
-    rep.cov["exhaustive_note"] = "every open/read/write/fchown/fchmod/futimens/close/unlink call position of the four scenario runs x {failure, SIGINT, SIGTERM, SIGKILL}"
+    rep.cov["exhaustive_note"] = "every open/read/write/fchown/fchmod/futimens/close/unlink call position of the six scenario runs (compress, decompress, decompress of a damaged file; each with and without -k) x {failure, SIGINT, SIGTERM, SIGKILL; before and after the call}"
     rep.sample({"injection": results[0][4], "scenario": results[0][0]["name"], "observed": list(results[0][5][:3])})
     rep.sample({"injection": results[-1][4], "scenario": results[-1][0]["name"], "observed": list(results[-1][5][:3])})
     rep.assumptions += ["faults are injected at the libc call boundary by harness/preload_io.c (lstat/fstat are not intercepted)",
